@@ -797,8 +797,15 @@ class Interp:
         are predicates over iteration segments (see DESIGN.md E2)."""
         items = []
         live = set()
-        for addr, val in st.heap.items():
+        live_locals = None
+        if hasattr(frame.body, "prog"):
+            from .cfg import liveness
+            live_locals = liveness(frame.body).get(bi)
+        for addr, val in list(st.heap.items()):
             if isinstance(addr, tuple) and addr and addr[0] == frame.id:
+                if live_locals is not None and addr[1] not in live_locals:
+                    del st.heap[addr]          # dead temporary: forget it
+                    continue
                 k = val.key()
                 items.append((("L", addr[1]), k))
             elif isinstance(addr, str):
@@ -811,6 +818,18 @@ class Interp:
                 continue
             _collect_syms(k, live)
         items.sort(key=repr)
+        tops = set()
+        for (_a, k) in items:
+            _collect_tops(k, tops)
+
+        def live_label(n):
+            lab = n[2:]
+            for t in tops:
+                if t == lab or t.startswith(lab + ".") or lab.startswith(t + "."):
+                    return True
+            return False
+        for n in [n for n in st.bind if isinstance(n, str) and n.startswith("v:") and not live_label(n)]:
+            del st.bind[n]
         bind = tuple(sorted((n, v) for n, v in st.bind.items() if n in live or n.startswith("v:")))
         extra = self.key_log(st) if self.key_log else None
         return (bi, tuple(items), bind, extra)
@@ -1095,7 +1114,16 @@ class Interp:
                 base = st2.heap.get(a.addr)
                 if base is not None:
                     try:
-                        st2.heap[a.addr] = self.set_at(base, a.path, Top("havoc:%s" % path))
+                        old = self.get_at(base, a.path)
+                        new = None
+                        if isinstance(old, Adt) and old.name in self.prog.adts_by_name and \
+                                self.prog.adts_by_name[old.name]["kind"] == "struct":
+                            new = self.materialize(old.name, "havoc:%s" % last_segment(path))
+                        elif isinstance(old, Top) and old.ty is not None:
+                            new = Top("havoc:%s" % last_segment(path), old.ty)
+                        if new is None:
+                            new = Top("havoc:%s" % path)
+                        st2.heap[a.addr] = self.set_at(base, a.path, new)
                     except Infeasible:
                         pass
         name = last_segment(path)
@@ -1127,6 +1155,16 @@ def _collect_syms(k, out):
         for x in k:
             if isinstance(x, tuple):
                 _collect_syms(x, out)
+
+
+def _collect_tops(k, out):
+    if isinstance(k, tuple):
+        if len(k) == 2 and k[0] == "t":
+            out.add(str(k[1]))
+            return
+        for x in k:
+            if isinstance(x, tuple):
+                _collect_tops(x, out)
 
 
 def _subst_sym(v, name, val):
